@@ -284,3 +284,40 @@ func H13Range() {
 		}
 	}
 }
+
+// H13CacheHistory: summaries at two confidence levels just below and just
+// above a step of the binomial coverage, computed one after the other in one
+// process (the order-statistic cache is keyed by sample size and level).
+func H13CacheHistory() {
+	// start from an empty cache: natively all replay cases share one process
+	medianCache.Range(func(k, v interface{}) bool {
+		medianCache.Delete(k)
+		return true
+	})
+	n := vndParam("n")
+	xs, s := h13SortedSample("x", n, &DefaultThresholds)
+	_ = xs
+	// coverage of the symmetric order-statistic interval (k, n+1-k)
+	step := vndParam("step") // k = 1..n/2
+	cov := 0.0
+	for k := step; k < n+1-step; k++ {
+		cov += h13Choose(n, k) * math.Pow(0.5, float64(n))
+	}
+	lo, hi := cov-1e-7, cov+1e-7
+	first, second := lo, hi
+	if vndParam("order") == 1 {
+		first, second = hi, lo
+	}
+	vndReach("h13:cache-history")
+	for _, conf := range []float64{first, second} {
+		if conf <= 0 || conf >= 1 {
+			continue
+		}
+		sum := AssumeNothing.Summary(s, conf)
+		bounded := !math.IsInf(sum.Lo, 0) && !math.IsInf(sum.Hi, 0)
+		if bounded {
+			vndAssert(sum.Confidence >= conf, "confidence-at-least-requested-after-other-levels")
+		}
+		vndAssert((len(sum.Warnings) > 0) == !bounded, "warning-exactly-when-unbounded-after-other-levels")
+	}
+}
